@@ -46,7 +46,7 @@ def _site(rng, npool, allow_complex=False, p_prior=0.55):
         return {"k": "sum", "i": i, "j": int(rng.integers(0, npool))}
     if r < 0.93:
         # a constant taken out of an array (a NumPy scalar) ON THE LEFT of a non-commutative operator: c - P, c / P
-        return {"k": ["rsub", "rdiv"][int(rng.integers(0, 2))], "i": i, "c": float(rng.choice([5.0, 7.5, 12.25]))}
+        return {"k": ["rsub", "rdiv"][int(rng.integers(0, 2))], "i": i, "c": float(rng.choice([50.0, 75.5, 122.25]))}      # (large enough that c - value stays a valid size for any value the check substitutes)
     return {"k": "sqrt", "i": i}
 
 
